@@ -15,7 +15,49 @@ MODELS = {
             {"w": (2, 3)}),
     "Comp": ("model C Real h[2](each start = 1.5); Real f; equation der(h[1]) = f; der(h[2]) = -f; f = h[1] - h[2]; end C; "
              "model Comp C c[2]; Real t; equation t = c[1].h[2] + c[2].f; end Comp;", {"c.h": (2, 2), "c.f": (2,)}),
+    "Mder": ("model Mder Real M[2,3](each start = 1); equation der(M[1,1]) = -11 * M[1,1]; der(M[1,2]) = -12 * M[1,2]; der(M[1,3]) = -13 * M[1,3]; "
+             "der(M[2,1]) = -21 * M[2,1]; der(M[2,2]) = -22 * M[2,2]; der(M[2,3]) = -23 * M[2,3]; end Mder;", {"M": (2, 3)}),
+    "Nest": ("model A Real x[3](each start = 1); equation der(x[1]) = -1 * x[1]; der(x[2]) = -2 * x[2]; der(x[3]) = -3 * x[3]; end A; "
+             "model Nest A a[2]; end Nest;", {"a.x": (2, 3)}),
 }
+
+
+def residual_values(m, V):
+    """dae residual of model m at the point V (name of an unexpanded variable -> array in its CasADi shape); scalars of an expanded
+    model take the element of their array that their own name says"""
+    import re
+    args = [V["time"]]
+    for cat in ("states", "der_states", "alg_states", "inputs", "constants", "parameters"):
+        col = []
+        for v in getattr(m, cat):
+            nm = v.symbol.name()
+            if nm in V:
+                col += list(np.asarray(V[nm], dtype=float).reshape(-1, order="F"))
+                continue
+            idx = tuple(int(t) - 1 for grp in re.findall(r"\[([0-9,]+)\]", nm) for t in grp.split(","))
+            base = re.sub(r"\[[0-9,]+\]", "", nm)
+            A = np.asarray(V[base], dtype=float)
+            col.append(float(A[idx]))
+        args.append(np.array(col, dtype=float))
+    return sorted(float(t) for t in np.array(m.dae_residual_function(*args)).reshape(-1))
+
+
+def judge_residual(m0, m1):
+    """the expanded residual is the unexpanded one under the renaming: same multiset of residual values at random points"""
+    rng = np.random.RandomState(181)
+    for _ in range(3):
+        V = {"time": float(rng.uniform(0, 1))}
+        for cat in ("states", "der_states", "alg_states", "inputs", "constants", "parameters"):
+            for v in getattr(m0, cat):
+                # by the MODELICA dimensions of the variable (its element [i,j] is V[i,j]); a 2-D variable is handed to the
+                # unexpanded function column by column, which is how CasADi flattens a matrix symbol
+                flat = tuple(d for lvl in v.symbol._modelica_shape for d in (lvl if isinstance(lvl, tuple) else (lvl,)) if d is not None)
+                V[v.symbol.name()] = rng.uniform(0.5, 2.0, size=flat)
+        r0, r1 = residual_values(m0, V), residual_values(m1, V)
+        if len(r0) != len(r1) or not np.allclose(r0, r1, rtol=1e-9, atol=1e-12):
+            return "residual values of the expanded model %s differ from those of the unexpanded model %s at the same point" % (
+                [round(t, 6) for t in r1], [round(t, 6) for t in r0])
+    return None
 
 
 def build(txt, name, expand):
@@ -95,9 +137,10 @@ def judge(key):
                     g = float(got.reshape(-1)[0])
                     if not (np.isclose(g, want) or (np.isnan(g) and np.isnan(want)) or g == want):
                         return "%s.%s = %r but element %s of %s.%s is %r" % (en, a, g, tuple(i + 1 for i in ind), nm, a, want)
+    bad = judge_residual(m0, m1)
+    if bad:
+        return bad
     # outputs renamed in order
-    for o in m0.outputs:
-        pass
     exp_out = []
     for o in m0.outputs:
         v = next(x for x in m0.states + m0.alg_states if x.symbol.name() == o)
